@@ -449,6 +449,7 @@ func run(t *rapid.T, test string, wl workload) {
 					hasErr = true
 				}
 			}
+			rec.QuotingNotJudged = true // quoting is C05's clause
 			prob = vlib.CheckLogfmtRecord(p, rec, hasErr && !vlib.ProductionMode())
 		default:
 			r := vlib.SimulateSGR(p)
